@@ -31,10 +31,47 @@ def strategy(tier):
     })
 
 
+def extra_cases(tier, seed, shard, nshards):
+    from checks import c18_real
+    cs = c18_real.cells(tier) + [{"engine": "Wlistener", "kind": k} for k in ("gevent", "eventlet")]
+    for i, c in enumerate(cs):
+        if (i + seed) % nshards == shard:
+            yield c
+
+
+def run_closed_listener(case):
+    """deterministic form of 'a connection accepted while the acceptor is being stopped': the async workers ask the
+    (already closed) listener for its name when the handler starts"""
+    import errno
+    kind = case["kind"]
+    cfg = wenv.make_cfg(keepalive=2, worker_connections=10, max_requests=3)
+    app = wenv.AppProgram({"status": "200 OK", "headers": [["Content-Length", "2"]], "mode": "list", "chunks": ["ok"], "read_input": "none"})
+    env = wenv.Env(kind, cfg, app)
+
+    class ClosedListener(object):
+        def getsockname(self):
+            raise OSError(errno.EBADF, "Bad file descriptor")
+    env.listener = ClosedListener()
+    sock = wenv.FakeSocket([b"GET / HTTP/1.1\r\nHost: h\r\nConnection: close\r\n\r\n"])
+    escaped = env.serve(sock)
+    r = ref_response.parse_response(sock.received(), 0, "GET")
+    vio = []
+    if escaped is not None or r is None or not (r.ok and r.complete and r.status == 200):
+        vio.append(Violation("no-request-lost", "C18/request-lost-at-recycle:%s:concurrent" % kind,
+                             observed={"wire": sock.received()[:200], "escaped": repr(escaped), "calls": len(app.calls), "case": case},
+                             expected="the accepted connection is answered"))
+    return Outcome(vio, True, ["engine:Wlistener", "kind:" + kind], sample={"case": case})
+
+
+EXHAUSTIVE_NOTE = "engine R: the listed (worker class x max_requests x jitter x workers x concurrency) cells are all run (quick: 16, thorough: 24)"
+
+
 def run_case(case):
     if case.get("engine") == "R":
         from checks import c18_real
         return c18_real.run_case(case)
+    if case.get("engine") == "Wlistener":
+        return run_closed_listener(case)
     import gunicorn.workers.base as wb
     kind = case["kind"]
     mr, jit = case["max_requests"], case["jitter"]
